@@ -1,7 +1,24 @@
 //! Scenario crate `scn-treasury` (chain-level simulation on the chainsim runtime).
 
-pub const PROPERTIES: &[&str] = &[];
+pub mod fixture;
+pub mod scn;
 
-pub fn registry(_property: &str) -> Option<simcore::CheckSpec> {
-    None
+use simcore::{CheckSpec, Part};
+
+pub const PROPERTIES: &[&str] = &["C37"];
+
+pub fn registry(property: &str) -> Option<CheckSpec> {
+    match property {
+        "C37" => Some(CheckSpec {
+            property: "C37",
+            level: "exploration",
+            parts: vec![Part::new(scn::Buyback, 4_000, 80_000)],
+            assumptions: vec![
+                "the bank balances a claim is measured against are the balances the GT bank records (reserved at confirmation); tokens in the bank vault above the record belong to the treasury (sync_gt_bank_v2)".into(),
+                "fees reach the receiver vault by a direct mint instead of claim_fees; GT is handed out by mint_gt_reward".into(),
+                "GT exchange window is the default 24 h (gt_set_exchange_time_window is test-only and not compiled in)".into(),
+            ],
+        }),
+        _ => None,
+    }
 }
